@@ -253,6 +253,7 @@ func (eng *Engine) writeEvidence(prop, tier string, pc *PropConfig, obls []*Obli
 	assumptions = append(assumptions,
 		"A-GEN: the VC generator (govc, /verif/engine) and contract parser are correct; mitigated by vacuity guards and the must-fail corpus",
 		"A-SMT: solver soundness (z3 5.1.0, z3 4.8.12, cvc5 1.0.3)",
+		"A-INT: machine integers are modelled exactly (mathematical Int with explicit wrap-around at every sized operation, or overflow obligations under nowrap); residual: no slice or string is longer than 2^40 elements",
 		"A-SSA: go/ssa (x/tools v0.50.0) represents the Go semantics of the subset",
 		"A-EXT: every extern/iface/fnfield contract listed in trusted_base is assumed, not proved",
 		"A-FRAME-EXT: callees without a contract (listed in unknown_callees) are assumed to write only byte slices passed to them",
